@@ -17,13 +17,14 @@ def obsParseOp (t : String) : Option Op :=
   | _ => none
 
 def obsShow : Obs → String
-  | .enq w v => s!"enq:{w}:{v}"
+  | .enq w v _ => s!"enq:{w}:{v}"
   | .enqStop => "enq:STOP"
   | .drop w v => s!"drop:{w}:{v}"
   | .dropStop => "drop:STOP"
-  | .call h w v => s!"call:{h}:{w}:{v}"
+  | .call h w v _ => s!"call:{h}:{w}:{v}"
   | .ret l i r => s!"ret:{l}:{i}:{r}"
   | .died n => s!"died:{n}"
+  | _ => ""
 
 def takeOps (ts : List String) : Option (List Op × List String) :=
   match ts with
@@ -77,6 +78,6 @@ def obsLine (ts : List String) : String :=
     let sched ← (match r with | "S" :: _q :: names => some names | _ => none)
     let (fin, lines) := obsReplay (init clients cbs ems) sched []
     let left := fin.threads.filter (fun (t : Thread) => t.pc != Pc.done) |>.map (fun (t : Thread) => t.name)
-    some (" ".intercalate lines ++ " | " ++ " ".intercalate (fin.hist.map obsShow) ++ " | left=[" ++ ",".intercalate left ++ "]")).getD "bad-op"
+    some (" ".intercalate lines ++ " | " ++ " ".intercalate ((fin.hist.map obsShow).filter (· != "")) ++ " | left=[" ++ ",".intercalate left ++ "]")).getD "bad-op"
 
 end WD.Driver
